@@ -20,13 +20,16 @@ RULE = ("cases = a generated multi-statement script (one column per line where p
         "(style x text x line position) over two base scripts, then seeded random multi-insertion scripts. Indented multi-line block "
         "comments and comments containing another comment marker are generated as separate, single-comment cases (known findings). "
         "Non-trivial = at least one comment inserted; distinct = distinct commented script."
-        " Added after seeded defects: interior and closing lines of block comments that start like ignored lines or comments, '--' inside '--' comments, '#text' / '##text', end-of-input tails (no final ';', no final newline), the comments entry on a second run of the same object, comment text glued to the dashes or the opener, comments glued to the code, a block comment's closing line that goes on with another comment.")
+        " Added after seeded defects: interior and closing lines of block comments that start like ignored lines or comments, '--' inside '--' comments, '#text' / '##text', end-of-input tails (no final ';', no final newline), the comments entry on a second run of the same object, comment text glued to the dashes or the opener, comments glued to the code, a block comment's closing line that goes on with another comment, comment texts with '; create ...' and with parentheses that do not pair up, statements closed by the start of the next statement instead of ';'.")
 ASSUMPTIONS = ["comment texts contain no quotes and (outside the known-finding class) none of the sequences --, /*, */",
                "no code follows a comment on the same line", "containment of a reported comment item is tested after removing white space (the pre-processor re-spaces , ( ) = inside comment text too)"]
 MIN_EVENTS = {"statements": 100, "run_return": 100}
 
 TEXTS = ["plain words", "create table x (y int);", "a, b (c) ; d", "select * from t", "x = 1", "50% done", "KEY index unique primary",
-         "alter table t drop column a;", "NOT NULL DEFAULT 5", "todo: fix (later), maybe", "#hash inside", "CREATE SEQUENCE s START 1;", "ends with semicolon;", "a;b;c"]
+         "alter table t drop column a;", "NOT NULL DEFAULT 5", "todo: fix (later), maybe", "#hash inside", "CREATE SEQUENCE s START 1;", "ends with semicolon;", "a;b;c",
+         # a statement terminator followed by a statement keyword inside the text; parentheses that do not pair up
+         "old layout; create table zz (q int);", "was bigint; DROP TABLE t1 once migrated", "x; alter table t add y int", "a;CREATE TABLE q (z int)", "done ; Create index i on t (a);",
+         "surrogate key (see ticket 12", "1) short code", "end of t1 (legacy", "((", "))", ") ("]
 NESTED = ["50% done -- nested", "a /* b", "a */ b", "x -- y", "-- double", "a /* b */ c"]
 # a '--' inside a '--' comment is ordinary comment text (only '--' inside /* */ and /* inside -- are the known finding)
 DASH_TEXTS = ["first remark -- second remark", "-- banner --", "a--b", "ends with dashes --", "50% -- done (later), x = 1"]
@@ -40,6 +43,17 @@ KINDS = ["core_table", "tbl_ml", "tbl_uq", "tbl_ine", "check", "fk_table", "seq"
          "db", "tspace", "drop", "hql_ml", "hql", "mysql", "snowflake", "alter_group", "alter_group2", "alter_pk", "set"]
 
 
+INNER_UNTERMINATED_P = 0.2
+_NO_SEMI = [False]
+
+
+def pool(extra=()):
+    """comment texts; for scripts whose statements are not ';'-terminated only texts without ';' (there a ';' at the end of a physical line
+    is the statement terminator wherever it stands)"""
+    t = TEXTS + list(extra)
+    return [x for x in t if ";" not in x] if _NO_SEMI[0] else t
+
+
 class Marker:
     def __init__(self):
         self.n = 0
@@ -51,7 +65,7 @@ class Marker:
 
 def make_comment(rng, style, mk, text=None, indent=""):
     """returns (lines, [comment line texts as inserted (for containment)], marker ids)"""
-    t = text if text is not None else rng.choice(TEXTS + (DASH_TEXTS if style == "dash" else []))
+    t = text if text is not None else rng.choice(pool(DASH_TEXTS if style == "dash" else []))
     m = mk.next()
     if style == "dash":
         l = [indent + rng.choice(["-- ", "-- ", "--", "--\t", "---"]) + m + " " + t]       # text glued to the dashes, a tab, a third dash
@@ -66,9 +80,9 @@ def make_comment(rng, style, mk, text=None, indent=""):
         for j in range(n - 2):
             if not indent and rng.random() < 0.5:
                 # an interior line that starts, at column 0, with a word the line pre-processor treats specially outside comments
-                l.append(rng.choice(INTERIOR_FIRST) + " " + mk.next() + " more " + rng.choice(TEXTS))
+                l.append(rng.choice(INTERIOR_FIRST) + " " + mk.next() + " more " + rng.choice(pool()))
             else:
-                l.append(indent + "   " + mk.next() + " more " + rng.choice(TEXTS))
+                l.append(indent + "   " + mk.next() + " more " + rng.choice(pool()))
         if style == "blockml":
             l.append(indent + "*/")
             if not indent and rng.random() < 0.3:
@@ -85,7 +99,7 @@ def make_comment(rng, style, mk, text=None, indent=""):
 
 
 def trailing(rng, style, mk, text=None):
-    t = text if text is not None else rng.choice(TEXTS + (DASH_TEXTS if style == "tdash" else []))
+    t = text if text is not None else rng.choice(pool(DASH_TEXTS if style == "tdash" else []))
     m = mk.next()
     if style == "tdash":
         # ... the usual ' -- text', the text glued to the dashes, the dashes glued to the code
@@ -111,6 +125,18 @@ def check_case(ctx, case):
         idx = max(i for i, l in enumerate(lines) if l.startswith(last))
         lines[idx] = lines[idx].replace(last, last.rstrip()[:-1], 1)
         base_lines[-1] = last.rstrip()[:-1]
+    if case.get("inner_unterminated"):
+        # statements that are closed by the start of the next one (a line beginning with CREATE / ALTER / DROP) instead of ';' - in the plain
+        # and in the commented script alike
+        bi = 0
+        for li, l in enumerate(lines):
+            if bi < len(base_lines) and l.startswith(base_lines[bi]):
+                b = base_lines[bi]
+                if bi + 1 < len(base_lines) and b.rstrip().endswith(";") and re.match(r"\s*(CREATE|ALTER|DROP)\b", base_lines[bi + 1], re.I):
+                    lines[li] = l.replace(b, b.rstrip()[:-1], 1)
+                    base_lines[bi] = b.rstrip()[:-1]
+                    ctx.obs["inner_statements_without_terminator"] += 1
+                bi += 1
     if case.get("tail") in ("no_newline", "unterminated_no_newline"):
         end = ""
     text = "\n".join(lines) + end
@@ -178,6 +204,19 @@ def gen_base(rng):
 def random_case(rng):
     mk = Marker()
     base = gen_base(rng)
+    # (only scripts of CREATE statements: ALTER / CREATE INDEX statements without a terminator are not merged at all on the pinned tree)
+    inner = rng.random() < INNER_UNTERMINATED_P and not any(re.match(r"\s*(ALTER|CREATE\s+(UNIQUE\s+)?INDEX|SET|DROP)\b", l, re.I) for l in base)
+    _NO_SEMI[0] = inner
+    try:
+        case = _random_case(rng, mk, base)
+    finally:
+        _NO_SEMI[0] = False
+    if inner:
+        case["inner_unterminated"] = True
+    return case
+
+
+def _random_case(rng, mk, base):
     out, inserted, styles = [], [], set()
     for i, l in enumerate(base + [None]):
         if rng.random() < 0.35:
@@ -189,7 +228,7 @@ def random_case(rng):
             styles.add(st + ("_indented" if ind else ""))
         if l is None:
             break
-        if rng.random() < 0.25 and l.strip() and "'" not in l.split("--")[0][-1:]:
+        if rng.random() < (0.5 if _NO_SEMI[0] else 0.25) and l.strip() and "'" not in l.split("--")[0][-1:]:
             st = rng.choice(["tdash", "tblock"])
             tail = trailing(rng, st, mk)
             out.append(l + tail)
